@@ -10,7 +10,7 @@ FLAGSETS = [["-O1", "-feof-support", "-fyield-support"], ["-O3", "-feof-support"
 def program_set(kind):
     thorough = common.tier() == "thorough"
     ps = progs.corpus(include_fail=True)
-    ps += gen.generated_programs(3000 if thorough else 300, common.seed())
+    ps += gen.generated_programs(3000 if thorough else 400, common.seed())
     if kind in ("join", "all"):
         ps += gen.pair_programs(thorough)
     if kind in ("case", "all"):
